@@ -79,6 +79,7 @@ def history(out: Outcome, rng, cls, lines, expect) -> None:
         op = "fit" if r < 0.3 else ("reset" if r < 0.4 else "compare")
         before = snap(det)
         ref_bytes = None if det.X_ref is None else det.X_ref.tobytes()
+        arg_bytes = x.tobytes() if isinstance(x, np.ndarray) else None
         rep = {"detector": cls.__name__, "ops": ops_done + [(op, shape_word(x))]}
         err = None
         try:
@@ -90,6 +91,9 @@ def history(out: Outcome, rng, cls, lines, expect) -> None:
                 res = det.compare(X=x)[0]
         except Exception as e:  # noqa: BLE001
             err = e
+        if op != "reset" and arg_bytes is not None and x.tobytes() != arg_bytes:
+            out.violation(f"{cls.__name__}: {op} modified the caller's sample in place (a pure call leaves its argument as it was)", rep)
+            return
         ops_done.append((op, shape_word(x)))
         kind = None if err is None else KIND.get(type(err), "Other" if not isinstance(x, np.ndarray) else "Library")
         if op == "compare":
@@ -234,6 +238,43 @@ def streaming(out: Outcome, rng) -> None:
         out.case({"detector": name, "streaming": True})
 
 
+COLUMN_KF = {"PSI", "HellingerDistance", "BhattacharyyaDistance", "AndersonDarlingTest", "BWSTest", "ChiSquareTest"}
+
+
+def column_vector_cases(out: Outcome, rng) -> None:
+    """a univariate sample may be given as a column vector (n, 1): `fit` and the dimension checks accept it, so compare has to work on it and the result is
+    the result for the same values as a flat array (the shape is not part of (reference, test sample, parameters))"""
+    for cls in UNIV:
+        for (n, m) in ((7, 7), (9, 6)):
+            if cls is ChiSquareTest:
+                a, b = np.array([rng.randint(0, 2) for _ in range(n)]), np.array([rng.randint(0, 2) for _ in range(m)])
+            else:
+                a, b = np.array([rng.gauss(0, 1) for _ in range(n)]), np.array([rng.gauss(0.4, 1) for _ in range(m)])
+            rep = {"detector": cls.__name__, "ref": a.tolist(), "test": b.tolist(), "kind": "column vector"}
+            kw = {"method": st_method()} if cls is BWSTest else {}
+            d1 = cls()
+            d1.fit(X=a)
+            flat = res_key(d1.compare(X=b, **kw)[0])
+            d2 = cls()
+            try:
+                d2.fit(X=a.reshape(-1, 1))
+                col = res_key(d2.compare(X=b.reshape(-1, 1), **kw)[0])
+            except Exception as e:  # noqa: BLE001
+                if cls.__name__ in COLUMN_KF and isinstance(e, (ValueError, TypeError)) and "KF-C14-1" in out.findings:
+                    out.findings["KF-C14-1"].hits += 1
+                else:
+                    out.violation(f"{cls.__name__}: samples of shape ({n},1) / ({m},1) are accepted by fit but compare raises {type(e).__name__}: {e}", rep)
+                continue
+            if col != flat:
+                out.violation(f"{cls.__name__}: column-vector samples give {col}, the same values as flat arrays give {flat}", rep)
+        out.case({"detector": cls.__name__, "column_vector": True})
+
+
+def st_method():
+    import scipy.stats as st
+    return st.PermutationMethod(n_resamples=99, random_state=7)
+
+
 def run(out: Outcome) -> None:
     rng = rng_for(out.seed, "C14")
     thorough = out.tier == "thorough"
@@ -244,6 +285,7 @@ def run(out: Outcome) -> None:
         for _ in range(6 if thorough else 2):
             history(out, rng, cls, lines, expect)
     dimension_table(out, rng)
+    column_vector_cases(out, rng)
     streaming(out, rng)
     got = run_driver(lines)
     for g, e in zip(got, expect):
